@@ -6,7 +6,7 @@ V = os.path.dirname(os.path.dirname(os.path.abspath(__file__)))
 REL = {
  "evm-statedb": "C01 C03 C04 C05 C06 C07 C08 C09 C19",
  "evm-keeper": "C01 C02 C03 C04 C05 C06 C07 C09 C19 C20",
- "evm-precompile": "C01 C04 C06 C08 C09 C19",
+ "evm-precompile": "C01 C04 C05 C06 C08 C09 C19",
  "ante": "C01 C02 C05 C07 C17 C18",
  "oracle": "C01 C10 C11 C12 C20",
  "small-modules": "C01 C13 C14 C15 C16 C18 C20",
